@@ -35,7 +35,8 @@ MANIFEST = {
              "cut by the row tokenizer into exactly its fields (row_tokens, with the tokenizer's fuel proved irrelevant); a concrete "
              "two-block document (scalars, integral float, strings with double blanks, a loop, an empty block) is parsed back by kernel evaluation. "
              "Float type preservation (2.0 stays float) and `n(u)` are covered by correspondence/oracle, not yet by theorems. The assembly of lines into loops and blocks (grouping, transposition, the loop state machine) is NOT proved, so neither is the whole-document theorem parse(print d) = d; whole documents are tied by "
-             "correspondence (model vs implementation on generated and malformed texts) and a round-trip oracle."),
+             "correspondence (model vs implementation on generated and malformed texts) and a round-trip oracle."
+             " Loop numbers written 20.12f are well-formed fields (fmtFixed_field), an atom-site row tokenises into its fields (atom_site_row_tokens) and the empty string is written as '' (empty_string_quoted)."),
     "note": ("Trusted: Lean kernel; hand model of the regexes and of the parser state machine; str(float)/float(str) of CPython; "
              "document-level round trip by oracle only."),
     "technique": "Lean 4 proof (value, line and row level; decimal round-trip lemmas) + whole-document correspondence incl. malformed stream + round-trip oracle",
